@@ -1,4 +1,4 @@
-import NibabelModel.Lemmas.C15
+import NibabelModel.Lemmas.C15_Build
 /-! Props/C15 — ArraySequence is observationally a list of arrays under any history.
 
   `Inv` (Lemmas/C15.lean) is the storage invariant: every range lies in the written prefix of its
@@ -6,20 +6,19 @@ import NibabelModel.Lemmas.C15
   of every sequence sharing an owner's buffer ends at or before the owner's next offset (the
   owner's tail is not shared), and two ranges of one buffer are equal or disjoint.
 
-  Proved for ALL states satisfying `Inv` / all histories over the operations `Op.core`
-  (new, one-shot append, ArraySequence(seq), copy, slice / list / mask / int getitem, int and
-  slice setitem, in-place arithmetic).  NOT yet proved (the `_partial` suffixes): the cached-build
-  loops (`extend`, `extend(generator)`, `extend(seq)`, `concatenate`) and `seq op k`; they are
-  covered by the correspondence run and the oracle only.
+  Proved for ALL states satisfying `Inv` and ALL histories (any length, any number of live sequences,
+  views of views, growing views): `inv_run` (every operation of `Op` keeps `Inv`) and, for every
+  operation that does not write through an existing array (new, append, extend list / generator /
+  sequence, ArraySequence(seq), copy, slice / list / mask / int getitem, `seq op k`, unary operators,
+  `seq op other`, concatenate), refinement of the plain Python list of arrays (`refines_list_partial`,
+  `step_refines`).  The writes (int / slice setitem, in-place arithmetic with a scalar) are characterised
+  state by state under `Inv` (`setitem_is_list_setitem`, `view_setitem_hits_parent_exactly`,
+  `iop_all_or_none`).  Still partial: a single linked reference run that also carries the writes
+  (`refines_list_partial`), and the all-part of in-place arithmetic with an ArraySequence operand
+  (`iopSeq_spec_partial`).
 -/
 namespace Nb.C15
 open Nb
-
-/-- operations of the proved fragment -/
-def Op.core : Op → Bool
-  | .new _ | .append .. | .view .. | .copy _ | .slice .. | .fancy .. | .mask .. | .getInt ..
-  | .setInt .. | .setSlice .. | .iop .. => true
-  | _ => false
 
 theorem pyIntIndex_lt {n : Nat} {i : Int} {j : Nat} (h : pyIntIndex n i = some j) : j < n := by
   unfold pyIntIndex at h
@@ -32,10 +31,60 @@ theorem pyIntIndex_lt {n : Nat} {i : Int} {j : Nat} (h : pyIntIndex n i = some j
 theorem getD_mem {α} (l : List α) (j : Nat) (d : α) (h : j < l.length) : l.getD j d ∈ l := by
   simp [List.getD, h]
 
-/-- every operation of the fragment keeps the storage invariant -/
-theorem inv_step {σ σ' : State} (h : Inv σ) (op : Op) (hc : op.core = true) (hs : step σ op = .ok σ') :
-    Inv σ' := by
-  cases op <;> simp only [Op.core, Bool.false_eq_true] at hc <;> simp only [step] at hs
+theorem unary_length (code : Nat) (e : Elem) : (unary code e).length = e.length := by
+  simp [unary]
+
+/-- EVERY operation keeps the storage invariant -/
+theorem inv_step {σ σ' : State} (h : Inv σ) (op : Op) (hs : step σ op = .ok σ') : Inv σ' := by
+  cases op <;> simp only [step] at hs
+  case extend t w dt els =>
+    split at hs
+    · cases hs; exact (extendList_spec h (by assumption) els w dt).1
+    · cases hs
+  case extendGen t w dt els =>
+    split at hs
+    · cases hs; exact (extendGen_spec h (by assumption) els w dt).1
+    · cases hs
+  case extendSeq t u w =>
+    split at hs
+    · rename_i hc; cases hs; exact (extendSeq_spec h hc.1 hc.2 w).1
+    · cases hs
+  case op t code k =>
+    split at hs
+    · rename_i ht
+      split at hs
+      · rename_i σ'' hi
+        cases hs
+        exact (opNew_spec _ (arith_length code k) h ht hi).1
+      · cases hs
+    · cases hs
+  case unary t code =>
+    split at hs
+    · rename_i ht
+      split at hs
+      · rename_i σ'' hi
+        cases hs
+        exact (opNew_spec _ (unary_length code) h ht hi).1
+      · cases hs
+    · cases hs
+  case iopSeq t v code =>
+    split at hs
+    · rename_i hc; exact (iopSeq_spec_partial code h hc.1 hc.2 hs).1
+    · cases hs
+  case opSeq t v code =>
+    split at hs
+    · rename_i hc; exact (opSeq_spec code h hc.1 hc.2 hs).1
+    · cases hs
+  case concat ts w =>
+    split at hs
+    · cases hs
+    · rename_i t us
+      split at hs
+      · rename_i hall
+        cases hs
+        simp only [List.all_cons, Bool.and_eq_true, decide_eq_true_eq, List.all_eq_true] at hall
+        exact (concat_spec h hall.1 us hall.2 w).1
+      · cases hs
   case new bb => cases hs; exact inv_new h bb
   case append t w dt el =>
     split at hs
@@ -106,12 +155,9 @@ theorem inv_step {σ σ' : State} (h : Inv σ) (op : Op) (hc : op.core = true) (
       · cases hs
     · cases hs
 
-/-- `inv_run` for the proved fragment: the invariant holds after EVERY history of core operations
-    (any length, any number of live sequences, views of views …).
-    FULL STATEMENT (not yet proved): the same without `hc`, i.e. including `extend`, `extendGen`,
-    `extendSeq`, `op`, `concat`; missing: the loop invariant of the cached build. -/
-theorem inv_run_partial (ops : List Op) (hc : ∀ op ∈ ops, op.core = true) :
-    ∀ {σ : State}, Inv σ → Inv (run σ ops) := by
+/-- `inv_run`: the storage invariant holds after EVERY history over ALL operations of `Op` (any length,
+    any number of live sequences, views of views, growing views, aliasing operands …). -/
+theorem inv_run (ops : List Op) : ∀ {σ : State}, Inv σ → Inv (run σ ops) := by
   induction ops with
   | nil => intro σ h; exact h
   | cons op ops ih =>
@@ -119,12 +165,13 @@ theorem inv_run_partial (ops : List Op) (hc : ∀ op ∈ ops, op.core = true) :
     simp only [run]
     split
     · rename_i σ' hs
-      exact ih (fun o ho => hc o (by simp [ho])) (inv_step h op (hc op (by simp)) hs)
-    · exact ih (fun o ho => hc o (by simp [ho])) h
+      exact ih (inv_step h op hs)
+    · exact ih h
 
 example : Inv (run State.init [.new 48, .append 0 3 1 [[1,2,3],[4,5,6]], .slice 0 ⟨none, some 1, none⟩,
-    .append 1 3 1 [[7,8,9]], .setInt 0 0 [[0,0,0],[0,0,0]], .iop 1 0 10]) :=
-  inv_run_partial _ (by decide) inv_init
+    .append 1 3 1 [[7,8,9]], .setInt 0 0 [[0,0,0],[0,0,0]], .iop 1 0 10, .extend 1 3 1 [[[5,5,5]], []],
+    .opSeq 0 0 3, .concat [0, 1] 3]) :=
+  inv_run _ inv_init
 
 /-- `s.append(el)` is list append — on an owner AND on a view — and changes no other sequence
     (this is `growing_view_preserves_parent` for `append`: `t` may be a view of `u`'s buffer). -/
@@ -134,22 +181,81 @@ theorem append_is_list_append {σ : State} (h : Inv σ) {t : Nat} (ht : t < σ.s
     ∀ u, u ≠ t → u < σ.seqs.length → (append σ t el w dt).contents u = σ.contents u :=
   ⟨(append_spec h ht el w dt).2.2.1, (append_spec h ht el w dt).2.2.2⟩
 
-/-- FULL STATEMENT (not yet proved): also for `extendList`, `extendGen`, `extendSeq`.
-    Proved: growing a view by `append` leaves the sequence it was taken from (and every other
-    live sequence) exactly as it was — for every reachable state, every slice, every element. -/
-theorem growing_view_preserves_parent_partial {σ : State} (h : Inv σ) {p : Nat} (hp : p < σ.seqs.length)
-    (pos : List Nat) (el : Elem) (w dt : Nat) :
+/-- `s.extend([...])` is list extend by the arrays that have rows — on an owner AND on a view — and
+    changes no other sequence -/
+theorem extend_is_list_extend {σ : State} (h : Inv σ) {t : Nat} (ht : t < σ.seqs.length)
+    (els : List Elem) (w dt : Nat) :
+    (extendList σ t els w dt).contents t = σ.contents t ++ els.filter (fun e => !e.isEmpty) ∧
+    ∀ u, u ≠ t → u < σ.seqs.length → (extendList σ t els w dt).contents u = σ.contents u :=
+  ⟨(extendList_spec h ht els w dt).2.2.1, (extendList_spec h ht els w dt).2.2.2⟩
+
+/-- `s.extend(generator)` / cached appends + `finalize_append()`: the same list extend -/
+theorem extendGen_is_list_extend {σ : State} (h : Inv σ) {t : Nat} (ht : t < σ.seqs.length)
+    (els : List Elem) (w dt : Nat) :
+    (extendGen σ t els w dt).contents t = σ.contents t ++ els.filter (fun e => !e.isEmpty) ∧
+    ∀ u, u ≠ t → u < σ.seqs.length → (extendGen σ t els w dt).contents u = σ.contents u :=
+  ⟨(extendGen_spec h ht els w dt).2.2.1, (extendGen_spec h ht els w dt).2.2.2⟩
+
+/-- `s.extend(other)` with `other` any live sequence (also `s` itself, also a view of `s`'s buffer) -/
+theorem extendSeq_is_list_extend {σ : State} (h : Inv σ) {t u : Nat} (ht : t < σ.seqs.length)
+    (hu : u < σ.seqs.length) (w : Nat) :
+    (extendSeq σ t u w).contents t = σ.contents t ++ σ.contents u ∧
+    ∀ x, x ≠ t → x < σ.seqs.length → (extendSeq σ t u w).contents x = σ.contents x :=
+  ⟨(extendSeq_spec h ht hu w).2.2.1, (extendSeq_spec h ht hu w).2.2.2⟩
+
+/-- growing a view `v = p[pos]` in ANY of the four ways (append, extend list, extend generator / cached
+    build, extend with a sequence `x`) leaves the sequence it was taken from — and every other live
+    sequence — exactly as it was: for every reachable state, every index list, every data. -/
+theorem growing_view_preserves_parent {σ : State} (h : Inv σ) {p : Nat} (hp : p < σ.seqs.length)
+    (pos : List Nat) (el : Elem) (els : List Elem) (x : Nat) (hx : x ≤ σ.seqs.length) (w dt : Nat) :
     let σv := getView σ p pos
     let v := σ.seqs.length
-    ∀ u, u < σ.seqs.length → (append σv v el w dt).contents u = σ.contents u := by
+    ∀ u, u < σ.seqs.length →
+      (append σv v el w dt).contents u = σ.contents u ∧
+      (extendList σv v els w dt).contents u = σ.contents u ∧
+      (extendGen σv v els w dt).contents u = σ.contents u ∧
+      (extendSeq σv v x w).contents u = σ.contents u := by
   intro σv v u hu
   have hv : Inv σv := inv_getView h hp pos
   have hlen : σv.seqs.length = σ.seqs.length + 1 := addSeq_length _ _
-  rw [(append_spec hv (by omega) el w dt).2.2.2 u (by omega) (by omega)]
-  exact getView_contents_old σ p pos hu
+  have hold := getView_contents_old σ p pos hu
+  refine ⟨?_, ?_, ?_, ?_⟩
+  · rw [(append_spec hv (by omega) el w dt).2.2.2 u (by omega) (by omega)]; exact hold
+  · rw [(extendList_spec hv (by omega) els w dt).2.2.2 u (by omega) (by omega)]; exact hold
+  · rw [(extendGen_spec hv (by omega) els w dt).2.2.2 u (by omega) (by omega)]; exact hold
+  · rw [(extendSeq_spec hv (t := v) (u := x) (by omega) (by omega) w).2.2.2 u (by omega) (by omega)]
+    exact hold
+
+/-- `concatenate([t0, us…], axis=0)` is list concatenation into a new sequence; nothing else changes -/
+theorem concat_is_list_concat {σ : State} (h : Inv σ) {t0 : Nat} (ht0 : t0 < σ.seqs.length) (us : List Nat)
+    (hus : ∀ u ∈ us, u < σ.seqs.length) (w : Nat) :
+    (concatRest (copyOp σ t0) σ.seqs.length w us).contents σ.seqs.length =
+      σ.contents t0 ++ (us.map σ.contents).flatten ∧
+    ∀ x, x < σ.seqs.length → (concatRest (copyOp σ t0) σ.seqs.length w us).contents x = σ.contents x :=
+  ⟨(concat_spec h ht0 us hus w).2.2.1, (concat_spec h ht0 us hus w).2.2.2⟩
+
+/-- `seq op k`, `-seq`, `abs(seq)` (`f` any row-count preserving array function): a new sequence holding
+    `f` of every array; no live sequence changes -/
+theorem op_is_list_map (f : Elem → Elem) (hf : ∀ e, (f e).length = e.length) {σ σ' : State} (h : Inv σ)
+    {t : Nat} (ht : t < σ.seqs.length) (hs : opNew f σ t = some σ') :
+    σ'.contents σ.seqs.length = (σ.contents t).map f ∧
+    ∀ u, u < σ.seqs.length → σ'.contents u = σ.contents u :=
+  ⟨(opNew_spec f hf h ht hs).2.2.1, (opNew_spec f hf h ht hs).2.2.2⟩
+
+/-- `seq op other` with `other` an ArraySequence: a new sequence holding the elementwise results over the
+    two lists (`seq` may be any non-compact view: the left operand is read at ITS ranges); no live
+    sequence changes -/
+theorem opSeq_is_elementwise (code : Nat) {σ σ' : State} (h : Inv σ) {t v : Nat} (ht : t < σ.seqs.length)
+    (hv : v < σ.seqs.length) (hs : opSeq code σ t v = .ok σ') :
+    σ'.contents σ.seqs.length = List.zipWith (arith2 code) (σ.contents t) (σ.contents v) ∧
+    ∀ u, u < σ.seqs.length → σ'.contents u = σ.contents u :=
+  ⟨(opSeq_spec code h ht hv hs).2.2.1, (opSeq_spec code h ht hv hs).2.2.2⟩
+
+example : ∃ σ', opSeq 2 (run State.init [.new 0, .extend 0 1 1 [[[1],[2]], [[3]], [[4]]],
+    .slice 0 ⟨some 1, none, none⟩]) 1 1 = .ok σ' ∧ σ'.contents 2 = [[[0]], [[0]]] := ⟨_, rfl, by decide⟩
 
 example : Inv (run State.init [.new 0, .append 0 1 1 [[1],[2]], .append 0 1 1 [[3]]]) :=
-  inv_run_partial _ (by decide) inv_init
+  inv_run _ inv_init
 
 /-- `s.copy()` shows the same arrays and changes nothing else -/
 theorem copy_is_list_copy {σ : State} (h : Inv σ) {t : Nat} (ht : t < σ.seqs.length) :
@@ -243,16 +349,122 @@ example : let σ := run State.init [.new 0, .append 0 1 1 [[1],[2]], .append 0 1
     (σ.seqAt 1).ranges.Nodup ∧ (iop (arith 0 10) σ 1).isSome = true ∧ (σ.seqAt 0).buf = (σ.seqAt 1).buf := by
   decide
 
-/-- operations of the write-free proved fragment -/
-def Op.growOnly : Op → Bool
-  | .new _ | .append .. | .view .. | .copy _ | .slice .. | .fancy .. | .mask .. | .getInt .. => true
-  | _ => false
+theorem opNew_none_iff (f : Elem → Elem) (σ : State) (t : Nat) :
+    opNew f σ t = none ↔ (σ.seqAt t).ranges.isEmpty = true := by
+  unfold opNew
+  simp only
+  split <;> simp_all
 
-/-- the reference: plain Python lists of arrays; a zero-row array is never stored; `none` = raises -/
+theorem isEmpty_of_length_eq {α β} {a : List α} {b : List β} (h : a.length = b.length) :
+    a.isEmpty = b.isEmpty := by
+  cases a <;> cases b <;> simp_all
+
+/-- when `seq op other` succeeds -/
+def opSeqOK (rs vs : List (Nat × Nat)) : Bool :=
+  checkShape rs vs && !rs.isEmpty && lensMatch rs vs
+
+theorem opSeq_ok_iff (code : Nat) (σ : State) (t v : Nat) :
+    (∃ σ'', opSeq code σ t v = .ok σ'') ↔ opSeqOK (σ.seqAt t).ranges (σ.seqAt v).ranges = true := by
+  unfold opSeq opSeqOK
+  simp only
+  split
+  · simp_all
+  · split
+    · simp_all
+    · split
+      · simp_all
+      · simp_all
+
+/-- `seq op= other`, `other` an ArraySequence stored in another buffer (a copy, a fresh sequence, a
+    detached view), `seq` selecting no array twice — seen from any live sequence `u`: NONE of `u`'s
+    arrays change when `u` does not share `seq`'s buffer; otherwise ALL the arrays `u` shares with `seq`
+    (and only those) become `array op partner`, where the partner is the array of `other` at the same
+    position — never a part of them. -/
+theorem iopSeq_all_or_none (code : Nat) {σ σ'' : State} (h : Inv σ) {t v : Nat} (ht : t < σ.seqs.length)
+    (hv : v < σ.seqs.length) (hne : (σ.seqAt v).buf ≠ (σ.seqAt t).buf) (hnd : (σ.seqAt t).ranges.Nodup)
+    (hs : iopSeq code σ t v = .ok σ'') {u : Nat} (hu : u < σ.seqs.length) :
+    σ''.contents u = (σ.seqAt u).ranges.map (fun q =>
+      if (σ.seqAt u).buf = (σ.seqAt t).buf then
+        match partnerOf (σ.seqAt t).ranges (σ.seqAt v).ranges q with
+        | some p => arith2 code ((σ.bufAt (σ.seqAt u).buf).slice q.1 q.2) ((σ.bufAt (σ.seqAt v).buf).slice p.1 p.2)
+        | none => (σ.bufAt (σ.seqAt u).buf).slice q.1 q.2
+      else (σ.bufAt (σ.seqAt u).buf).slice q.1 q.2) := by
+  have hspec := iopSeq_spec_partial code h ht hv hs
+  unfold iopSeq at hs
+  simp only at hs
+  split at hs
+  · cases hs
+  · split at hs
+    · cases hs
+    · split at hs
+      · cases hs
+      · rename_i _ _ hm
+        cases hs
+        have hm' : (σ.seqAt t).ranges.map (·.2) = (σ.seqAt v).ranges.map (·.2) := by
+          simp only [Bool.or_eq_true, Bool.not_eq_true', decide_eq_true_eq, not_or, Bool.not_eq_false,
+            lensMatch, beq_iff_eq] at hm
+          exact hm.1
+        have hts := get_seqAt ht
+        have hvs := get_seqAt hv
+        have hus := get_seqAt hu
+        have hsu := seqAt_of_seqs_eq hspec.2.1 u
+        by_cases hb : (σ.seqAt u).buf = (σ.seqAt t).buf
+        · simp only [contents_def, contentsOf, hsu, hb, if_true]
+          apply List.map_congr_left
+          intro q hq
+          exact opLoop2_slice code (σ.seqAt t).buf (σ.seqAt v).buf hne (σ.seqAt t).ranges (σ.seqAt v).ranges σ
+            (h.bufLt t _ hts) hnd hm'
+            (fun r hr => ⟨h.inb t _ hts r hr, h.pos t _ hts r hr⟩)
+            (fun x hx => h.inb v _ hvs x hx)
+            q (by have := h.inb u _ hus q hq; rw [hb] at this; exact this) (h.pos u _ hus q hq)
+            (fun r hr => h.cells u t _ _ hus hts hb q hq r hr)
+        · rw [hspec.2.2 u hb]
+          simp only [contents_def, contentsOf, hb, if_false]
+
+/-- … in particular `seq` itself then shows the elementwise results over the two lists -/
+theorem iopSeq_target (code : Nat) {σ σ'' : State} (h : Inv σ) {t v : Nat} (ht : t < σ.seqs.length)
+    (hv : v < σ.seqs.length) (hne : (σ.seqAt v).buf ≠ (σ.seqAt t).buf) (hnd : (σ.seqAt t).ranges.Nodup)
+    (hs : iopSeq code σ t v = .ok σ'') :
+    σ''.contents t = List.zipWith (arith2 code) (σ.contents t) (σ.contents v) := by
+  rw [iopSeq_all_or_none code h ht hv hne hnd hs ht]
+  simp only [if_true]
+  have hl : (σ.seqAt t).ranges.length = (σ.seqAt v).ranges.length := by
+    have := congrArg List.length (iopSeq_ok_lens code hs)
+    simpa using this
+  have hz := map_partner_zip (fun q p => arith2 code ((σ.bufAt (σ.seqAt t).buf).slice q.1 q.2)
+      ((σ.bufAt (σ.seqAt v).buf).slice p.1 p.2)) (fun q => (σ.bufAt (σ.seqAt t).buf).slice q.1 q.2) _ _ hnd hl
+  refine Eq.trans ?_ (hz.trans ?_)
+  · rfl
+  · simp only [contents_def, contentsOf, List.zipWith_map]
+example : let σ := run State.init [.new 0, .extend 0 1 1 [[[1],[2]], [[3]], [[4]]], .slice 0 ⟨some 1, none, none⟩, .copy 1]
+    (σ.seqAt 2).buf ≠ (σ.seqAt 1).buf ∧ (σ.seqAt 1).ranges.Nodup ∧
+    (∃ σ', iopSeq 0 σ 1 2 = .ok σ' ∧ σ'.contents 0 = [[[1],[2]], [[6]], [[8]]]) := by
+  refine ⟨by decide, by decide, _, rfl, by decide⟩
+
+/-- operations that do not write through an existing array -/
+def Op.noWrite : Op → Bool
+  | .setInt .. | .setSlice .. | .iop .. | .iopSeq .. => false
+  | _ => true
+
+/-- `_check_shape` + the element-by-element row counts, on two lists of arrays -/
+def refSeqOK (a b : List Elem) : Bool :=
+  (a.length == b.length && (a.map List.length).sum == (b.map List.length).sum) && !a.isEmpty &&
+    (a.map List.length == b.map List.length)
+
+/-- the reference: plain Python lists of arrays; a zero-row array is never stored; `none` = raises.
+    (Two documented deviations of ArraySequence from a bare list are part of the reference: an operator on
+    a sequence without arrays raises — the open finding — and `_check_shape` refuses operands whose
+    element / row counts differ.) -/
 def refStep (ρ : List (List Elem)) : Op → Option (List (List Elem))
   | .new _ => some (ρ ++ [[]])
   | .append t _ _ el =>
       if t < ρ.length then some (ρ.set t (ρ.getD t [] ++ (if el.isEmpty then [] else [el]))) else none
+  | .extend t _ _ els =>
+      if t < ρ.length then some (ρ.set t (ρ.getD t [] ++ els.filter (fun e => !e.isEmpty))) else none
+  | .extendGen t _ _ els =>
+      if t < ρ.length then some (ρ.set t (ρ.getD t [] ++ els.filter (fun e => !e.isEmpty))) else none
+  | .extendSeq t u _ =>
+      if t < ρ.length ∧ u < ρ.length then some (ρ.set t (ρ.getD t [] ++ ρ.getD u [])) else none
   | .view t _ => if t < ρ.length then some (ρ ++ [ρ.getD t []]) else none
   | .copy t => if t < ρ.length then some (ρ ++ [ρ.getD t []]) else none
   | .slice t sl =>
@@ -266,6 +478,26 @@ def refStep (ρ : List (List Elem)) : Op → Option (List (List Elem))
         (maskPos (ρ.getD t []).length m).map (fun pos => ρ ++ [pos.filterMap (fun i => (ρ.getD t [])[i]?)])
       else none
   | .getInt t i => if t < ρ.length then (pyIntIndex (ρ.getD t []).length i).map (fun _ => ρ) else none
+  | .op t code k =>
+      if t < ρ.length then
+        (if (ρ.getD t []).isEmpty then none else some (ρ ++ [(ρ.getD t []).map (arith code k)]))
+      else none
+  | .unary t code =>
+      if t < ρ.length then
+        (if (ρ.getD t []).isEmpty then none else some (ρ ++ [(ρ.getD t []).map (unary code)]))
+      else none
+  | .opSeq t v code =>
+      if t < ρ.length ∧ v < ρ.length then
+        (if refSeqOK (ρ.getD t []) (ρ.getD v []) then
+          some (ρ ++ [List.zipWith (arith2 code) (ρ.getD t []) (ρ.getD v [])]) else none)
+      else none
+  | .concat ts _ =>
+      match ts with
+      | [] => none
+      | t :: us =>
+          if (t :: us).all (· < ρ.length) then
+            some (ρ ++ [ρ.getD t [] ++ (us.map (fun u => ρ.getD u [])).flatten])
+          else none
   | _ => none
 
 def refRun (ρ : List (List Elem)) : List Op → List (List Elem)
@@ -295,13 +527,149 @@ theorem rel_add {σ σ' : State} {ρ : List (List Elem)} (hR : Rel σ ρ) (x : L
     simp only [List.getD_eq_getElem?_getD, List.getElem?_append, hR.len]
     simp
 
-theorem step_refines {σ : State} {ρ : List (List Elem)} (hR : Rel σ ρ) (op : Op) (hc : op.growOnly = true) :
+theorem rel_set {σ σ' : State} {ρ : List (List Elem)} (hR : Rel σ ρ) {t : Nat} (ht : t < σ.seqs.length)
+    (x : List Elem) (hi : Inv σ') (hl : σ'.seqs.length = σ.seqs.length)
+    (hnew : σ'.contents t = σ.contents t ++ x)
+    (hold : ∀ u, u ≠ t → u < σ.seqs.length → σ'.contents u = σ.contents u) :
+    Rel σ' (ρ.set t (ρ.getD t [] ++ x)) := by
+  refine ⟨hi, by simp [hl, hR.len], ?_⟩
+  intro u hu
+  rw [hl] at hu
+  by_cases hut : u = t
+  · subst hut
+    rw [hnew, hR.same u hu]
+    simp only [List.getD_eq_getElem?_getD, List.getElem?_set, ← hR.len, hu, if_true]
+    simp
+  · rw [hold u hut hu, hR.same u hu]
+    simp only [List.getD_eq_getElem?_getD, List.getElem?_set]
+    rw [if_neg (by omega)]
+
+theorem step_refines {σ : State} {ρ : List (List Elem)} (hR : Rel σ ρ) (op : Op) (hc : op.noWrite = true) :
     (∀ σ', step σ op = .ok σ' → ∃ ρ', refStep ρ op = some ρ' ∧ Rel σ' ρ') ∧
     (∀ e, step σ op = .error e → refStep ρ op = none) := by
   have hlen := hR.len
   have hcl : ∀ t, t < σ.seqs.length → (ρ.getD t []).length = (σ.seqAt t).ranges.length := by
     intro t ht; rw [← hR.same t ht, contents_length]
-  cases op <;> simp only [Op.growOnly, Bool.false_eq_true] at hc <;> simp only [step, refStep, ← hlen]
+  have hml : ∀ t, t < σ.seqs.length → (ρ.getD t []).map List.length = (σ.seqAt t).ranges.map (·.2) := by
+    intro t ht
+    rw [← hR.same t ht]
+    exact contentsOf_lengths _ _ (hR.inv.inb t _ (get_seqAt ht))
+  cases op <;> simp only [Op.noWrite, Bool.false_eq_true] at hc <;> simp only [step, refStep, ← hlen]
+  case extend t w dt els =>
+    by_cases ht : t < σ.seqs.length
+    · simp only [ht, if_true]
+      refine ⟨?_, fun e he => by cases he⟩
+      intro σ' hs; cases hs
+      obtain ⟨a1, a2, a3, a4⟩ := extendList_spec hR.inv ht els w dt
+      exact ⟨_, rfl, rel_set hR ht _ a1 a2 a3 a4⟩
+    · simp only [ht, if_false]
+      exact ⟨fun _ hs => (nomatch hs), fun _ _ => trivial⟩
+  case extendGen t w dt els =>
+    by_cases ht : t < σ.seqs.length
+    · simp only [ht, if_true]
+      refine ⟨?_, fun e he => by cases he⟩
+      intro σ' hs; cases hs
+      obtain ⟨a1, a2, a3, a4⟩ := extendGen_spec hR.inv ht els w dt
+      exact ⟨_, rfl, rel_set hR ht _ a1 a2 a3 a4⟩
+    · simp only [ht, if_false]
+      exact ⟨fun _ hs => (nomatch hs), fun _ _ => trivial⟩
+  case extendSeq t u w =>
+    by_cases hc2 : t < σ.seqs.length ∧ u < σ.seqs.length
+    · simp only [hc2, and_self, if_true]
+      refine ⟨?_, fun e he => by cases he⟩
+      intro σ' hs; cases hs
+      obtain ⟨a1, a2, a3, a4⟩ := extendSeq_spec hR.inv hc2.1 hc2.2 w
+      rw [hR.same u hc2.2] at a3
+      exact ⟨_, rfl, rel_set hR hc2.1 _ a1 a2 a3 a4⟩
+    · simp only [hc2, if_false]
+      exact ⟨fun _ hs => (nomatch hs), fun _ _ => trivial⟩
+  case op t code k =>
+    by_cases ht : t < σ.seqs.length
+    · simp only [ht, if_true]
+      have hie : (ρ.getD t []).isEmpty = (σ.seqAt t).ranges.isEmpty := isEmpty_of_length_eq (hcl t ht)
+      cases hop : opNew (arith code k) σ t with
+      | none =>
+        have := (opNew_none_iff _ σ t).mp hop
+        simp only [hie, this, if_true]
+        exact ⟨fun _ hs => (nomatch hs), fun _ _ => trivial⟩
+      | some σ'' =>
+        have hne : (σ.seqAt t).ranges.isEmpty = false := by
+          cases hx : (σ.seqAt t).ranges.isEmpty
+          · rfl
+          · rw [(opNew_none_iff _ σ t).mpr hx] at hop; cases hop
+        simp only [hie, hne, Bool.false_eq_true, if_false]
+        refine ⟨?_, fun e he => by cases he⟩
+        intro σ' hs; cases hs
+        obtain ⟨a1, a2, a3, a4⟩ := opNew_spec _ (arith_length code k) hR.inv ht hop
+        exact ⟨_, rfl, rel_add hR _ a1 a2 (by rw [a3, hR.same t ht]) a4⟩
+    · simp only [ht, if_false]
+      exact ⟨fun _ hs => (nomatch hs), fun _ _ => trivial⟩
+  case unary t code =>
+    by_cases ht : t < σ.seqs.length
+    · simp only [ht, if_true]
+      have hie : (ρ.getD t []).isEmpty = (σ.seqAt t).ranges.isEmpty := isEmpty_of_length_eq (hcl t ht)
+      cases hop : opNew (unary code) σ t with
+      | none =>
+        have := (opNew_none_iff _ σ t).mp hop
+        simp only [hie, this, if_true]
+        exact ⟨fun _ hs => (nomatch hs), fun _ _ => trivial⟩
+      | some σ'' =>
+        have hne : (σ.seqAt t).ranges.isEmpty = false := by
+          cases hx : (σ.seqAt t).ranges.isEmpty
+          · rfl
+          · rw [(opNew_none_iff _ σ t).mpr hx] at hop; cases hop
+        simp only [hie, hne, Bool.false_eq_true, if_false]
+        refine ⟨?_, fun e he => by cases he⟩
+        intro σ' hs; cases hs
+        obtain ⟨a1, a2, a3, a4⟩ := opNew_spec _ (unary_length code) hR.inv ht hop
+        exact ⟨_, rfl, rel_add hR _ a1 a2 (by rw [a3, hR.same t ht]) a4⟩
+    · simp only [ht, if_false]
+      exact ⟨fun _ hs => (nomatch hs), fun _ _ => trivial⟩
+  case opSeq t v code =>
+    by_cases hc2 : t < σ.seqs.length ∧ v < σ.seqs.length
+    · simp only [hc2, and_self, if_true]
+      have hok : refSeqOK (ρ.getD t []) (ρ.getD v []) = opSeqOK (σ.seqAt t).ranges (σ.seqAt v).ranges := by
+        simp only [refSeqOK, opSeqOK, checkShape, lensMatch, hml t hc2.1, hml v hc2.2, hcl t hc2.1,
+          hcl v hc2.2, isEmpty_of_length_eq (hcl t hc2.1)]
+      rw [hok]
+      cases hst : opSeq code σ t v with
+      | ok σ'' =>
+        have := (opSeq_ok_iff code σ t v).mp ⟨σ'', hst⟩
+        simp only [this, if_true]
+        refine ⟨?_, fun e he => by cases he⟩
+        intro σ' hs; cases hs
+        obtain ⟨a1, a2, a3, a4⟩ := opSeq_spec code hR.inv hc2.1 hc2.2 hst
+        exact ⟨_, rfl, rel_add hR _ a1 a2 (by rw [a3, hR.same t hc2.1, hR.same v hc2.2]) a4⟩
+      | error e =>
+        have hno : opSeqOK (σ.seqAt t).ranges (σ.seqAt v).ranges = false := by
+          cases hx : opSeqOK (σ.seqAt t).ranges (σ.seqAt v).ranges
+          · rfl
+          · obtain ⟨σ'', h2⟩ := (opSeq_ok_iff code σ t v).mpr hx
+            rw [h2] at hst; cases hst
+        simp only [hno, Bool.false_eq_true, if_false]
+        exact ⟨fun _ hs => (nomatch hs), fun _ _ => trivial⟩
+    · simp only [hc2, if_false]
+      exact ⟨fun _ hs => (nomatch hs), fun _ _ => trivial⟩
+  case concat ts w =>
+    cases ts with
+    | nil => exact ⟨fun _ hs => (nomatch hs), fun _ _ => rfl⟩
+    | cons t us =>
+      simp only
+      by_cases hall : (t :: us).all (· < σ.seqs.length) = true
+      · simp only [hall, if_true]
+        refine ⟨?_, fun e he => by cases he⟩
+        intro σ' hs; cases hs
+        have hall' := hall
+        simp only [List.all_cons, Bool.and_eq_true, decide_eq_true_eq, List.all_eq_true] at hall'
+        obtain ⟨a1, a2, a3, a4⟩ := concat_spec hR.inv hall'.1 us hall'.2 w
+        refine ⟨_, rfl, rel_add hR _ a1 a2 ?_ a4⟩
+        rw [a3, hR.same t hall'.1]
+        congr 2
+        apply List.map_congr_left
+        intro u hu
+        exact hR.same u (hall'.2 u hu)
+      · simp only [hall, Bool.false_eq_true, if_false]
+        exact ⟨fun _ hs => (nomatch hs), fun _ _ => trivial⟩
   case new bb =>
     refine ⟨?_, fun e he => by cases he⟩
     intro σ' hs; cases hs
@@ -405,15 +773,19 @@ theorem step_refines {σ : State} {ρ : List (List Elem)} (hR : Rel σ ρ) (op :
     · simp only [ht, if_false]
       exact ⟨fun _ hs => (nomatch hs), fun _ _ => trivial⟩
 
-/-- `refines_list` for the write-free fragment: after EVERY history (any length, any number of live
-    sequences, views of views, growing views) of {new, one-shot append, ArraySequence(seq), copy,
-    slice / list / mask / int getitem}, every live sequence shows exactly what the plain Python list
-    of arrays shows after the same history, and an operation raises exactly when the list does.
-    FULL STATEMENT (not yet proved): the same for histories over ALL of `Op`, against a reference with
-    explicit links for the writes.  Missing: the cached-build loops (`extend*`, `op`, `concat`); the
-    writes are characterised state-by-state by `setitem_is_list_setitem`, `iop_all_or_none` and
-    `view_setitem_hits_parent_exactly` (under `Inv`, which `inv_run_partial` establishes). -/
-theorem refines_list_partial (ops : List Op) (hc : ∀ op ∈ ops, op.growOnly = true) :
+/-- `refines_list` for every operation that does not write through an existing array: after EVERY history
+    (any length, any number of live sequences, views of views, growing views and copies) of {new, append,
+    extend list / generator (cached build) / sequence, ArraySequence(seq), copy, slice / list / mask / int
+    getitem, `seq op k`, unary operators, `seq op other`, concatenate}, every live sequence shows exactly
+    what the plain Python list of arrays shows after the same history, and an operation raises exactly
+    when the reference does.
+    FULL STATEMENT (not yet proved): the same for histories over ALL of `Op`, against a reference that
+    carries explicit parent/view links for the writes {int / slice setitem, `seq op= k`, `seq op= other`}.
+    Missing: that linked reference run; the writes are characterised state by state, for every state with
+    `Inv` (which `inv_run` establishes after every history over all of `Op`), by
+    `setitem_is_list_setitem`, `view_setitem_hits_parent_exactly`, `iop_all_or_none` and
+    `iopSeq_spec_partial`. -/
+theorem refines_list_partial (ops : List Op) (hc : ∀ op ∈ ops, op.noWrite = true) :
     ∀ {σ : State} {ρ : List (List Elem)}, Rel σ ρ → Rel (run σ ops) (refRun ρ ops) := by
   induction ops with
   | nil => intro σ ρ h; exact h
@@ -436,10 +808,12 @@ example : (run State.init [.new 48, .append 0 3 1 [[1,2,3],[4,5,6]], .append 0 3
       .slice 0 ⟨none, some 1, none⟩, .append 1 3 1 [[0,0,0]], .copy 1, .fancy 0 [1, 0, 0]]).contents 1
     = [[[1,2,3],[4,5,6]], [[0,0,0]]] := by decide
 
-example : Rel (run State.init [.new 48, .append 0 3 1 [[1,2,3],[4,5,6]], .slice 0 ⟨none, some 1, none⟩,
-      .append 1 3 1 [[0,0,0]], .copy 1])
-    (refRun [] [.new 48, .append 0 3 1 [[1,2,3],[4,5,6]], .slice 0 ⟨none, some 1, none⟩,
-      .append 1 3 1 [[0,0,0]], .copy 1]) :=
+example : Rel (run State.init [.new 48, .extend 0 3 1 [[[1,2,3],[4,5,6]], [], [[7,8,9]]],
+      .slice 0 ⟨some 1, none, none⟩, .extendGen 1 3 1 [[[0,0,0]]], .copy 1, .opSeq 0 0 3, .op 1 0 5,
+      .extendSeq 2 0 3, .concat [0, 1] 3, .unary 1 0])
+    (refRun [] [.new 48, .extend 0 3 1 [[[1,2,3],[4,5,6]], [], [[7,8,9]]],
+      .slice 0 ⟨some 1, none, none⟩, .extendGen 1 3 1 [[[0,0,0]]], .copy 1, .opSeq 0 0 3, .op 1 0 5,
+      .extendSeq 2 0 3, .concat [0, 1] 3, .unary 1 0]) :=
   refines_list_partial _ (by decide) rel_init
 
 /-! ### witnesses about the ORIGINAL (pinned) logic -/
